@@ -185,6 +185,38 @@ fn short_loc(file: &str, line: u32) -> String {
     }
 }
 
+/// the class of a panic message: the part that does not depend on the values involved
+fn msgclass(m: &str) -> String {
+    let table: &[(&str, &str)] = &[
+        ("attempt to add with overflow", "add-overflow"),
+        ("attempt to subtract with overflow", "sub-overflow"),
+        ("attempt to multiply with overflow", "mul-overflow"),
+        ("attempt to divide by zero", "div-zero"),
+        ("attempt to calculate the remainder with a divisor of zero", "rem-zero"),
+        ("attempt to shift left with overflow", "shl-overflow"),
+        ("attempt to shift right with overflow", "shr-overflow"),
+        ("attempt to negate with overflow", "neg-overflow"),
+        ("index out of bounds", "index-oob"),
+        ("out of range for slice", "slice-oob"),
+        ("slice index starts at", "slice-order"),
+        ("called `Option::unwrap()` on a `None` value", "unwrap-none"),
+        ("called `Result::unwrap()` on an `Err` value", "unwrap-err"),
+        ("capacity overflow", "capacity-overflow"),
+        ("byte index", "str-index"),
+        ("not implemented", "unimplemented"),
+        ("decoded string should only contain valid UTF16", "expect-utf16"),
+        ("internal error: entered unreachable code", "unreachable"),
+        ("assertion", "assertion"),
+    ];
+    for (pat, cls) in table {
+        if m.contains(pat) {
+            return cls.to_string();
+        }
+    }
+    let w: Vec<String> = m.split_whitespace().take(3).map(|x| x.chars().filter(|c| c.is_ascii_alphabetic()).collect::<String>().to_lowercase()).filter(|x| !x.is_empty()).collect();
+    format!("other-{}", w.join("-"))
+}
+
 fn catch<T>(f: impl FnOnce() -> T) -> Result<T, (String, String)> {
     *PANIC_LOC.lock().unwrap() = String::new();
     std::panic::catch_unwind(std::panic::AssertUnwindSafe(f)).map_err(|e| {
@@ -294,6 +326,25 @@ fn run_ep(ep: &str, bytes: &[u8], dict: &Value, want_dig: bool) -> Ran {
                 }
             }
         }
+        // the observation machinery tested on itself (checks/c04.py): each failure kind on purpose
+        "selftest" => match bytes {
+            b"panic" => panic!("selftest: deliberate panic"),
+            b"overflow" => {
+                fn deep(n: u64) -> u64 {
+                    let pad = std::hint::black_box([n; 64]);
+                    if n == 0 { 0 } else { deep(n - 1) + pad[(n % 64) as usize] }
+                }
+                Ran { res: "ok", note: format!("{}", deep(u64::MAX >> 20)), dig: String::new() }
+            }
+            b"alloc" => {
+                let v = vec![0u8; 8usize << 30];
+                Ran { res: "ok", note: format!("{}", v.len()), dig: String::new() }
+            }
+            b"hang" => loop {
+                std::thread::sleep(Duration::from_millis(50));
+            },
+            _ => Ran { res: "ok", note: String::new(), dig: String::new() },
+        },
         _ => panic!("harness: unknown entry point {ep}"),
     }
 }
@@ -345,10 +396,10 @@ fn worker_case(line: &str) -> String {
     match r {
         Ok(x) => json!({"id": id, "res": x.res, "msg": x.note, "loc": "", "us": us, "maxreq": maxreq, "refused": refused, "peak": peak, "dig": dig}),
         Err((msg, loc)) => {
-            if loc.starts_with("harness:") || msg.starts_with("harness:") || msg.starts_with("tla_to_obj") {
+            if ep != "selftest" && (loc.starts_with("harness:") || msg.starts_with("harness:") || msg.starts_with("tla_to_obj")) {
                 return json!({"harness_error": format!("{msg} at {loc}")}).to_string();
             }
-            json!({"id": id, "res": "panic", "msg": msg.chars().take(200).collect::<String>(), "loc": loc, "us": us,
+            json!({"id": id, "res": "panic", "msg": msg.chars().take(200).collect::<String>(), "loc": loc, "mcl": msgclass(&msg), "us": us,
                    "maxreq": maxreq, "refused": refused, "peak": peak, "dig": ""})
         }
     }
@@ -496,7 +547,7 @@ fn run(args: &[String]) {
                                 break;
                             }
                             Ok(v) => json!({"id": recs[i]["id"], "ran": true, "kind": kind_of_answer(&v), "msg": v["msg"], "loc": v["loc"],
-                                            "us": v["us"], "maxreq": v["maxreq"], "refused": v["refused"], "peak": v["peak"], "dig": v["dig"]}),
+                                            "mcl": v.get("mcl").cloned().unwrap_or(json!("")), "us": v["us"], "maxreq": v["maxreq"], "refused": v["refused"], "peak": v["peak"], "dig": v["dig"]}),
                             Err(e) => {
                                 *fatal.lock().unwrap() = Some(format!("worker answered garbage: {e}: {l}"));
                                 break;
@@ -514,7 +565,8 @@ fn run(args: &[String]) {
                                         *fatal.lock().unwrap() = Some(format!("case {}: {}", recs[i]["id"], a["harness_error"]));
                                         break;
                                     }
-                                    json!({"id": recs[i]["id"], "ran": true, "kind": kind_of_answer(a), "msg": a["msg"], "loc": a["loc"], "us": a["us"],
+                                    json!({"id": recs[i]["id"], "ran": true, "kind": kind_of_answer(a), "msg": a["msg"], "loc": a["loc"],
+                                           "mcl": a.get("mcl").cloned().unwrap_or(json!("")), "us": a["us"],
                                            "maxreq": a["maxreq"], "refused": a["refused"], "peak": a["peak"], "dig": a["dig"],
                                            "note": if was_hang { "first run exceeded the time limit, answered alone within 3x" } else { "first run lost with its worker, answered alone" }})
                                 }
@@ -522,7 +574,7 @@ fn run(args: &[String]) {
                                     if kind == "hang" {
                                         hangs.fetch_add(1, Relaxed);
                                     }
-                                    json!({"id": recs[i]["id"], "ran": true, "kind": kind, "msg": c["msg"], "loc": "", "us": 0, "maxreq": 0,
+                                    json!({"id": recs[i]["id"], "ran": true, "kind": kind, "msg": c["msg"], "loc": "", "mcl": "", "us": 0, "maxreq": 0,
                                            "refused": c.get("size").cloned().unwrap_or(json!(0)), "peak": 0, "dig": ""})
                                 }
                             }
@@ -539,9 +591,14 @@ fn run(args: &[String]) {
     }
     let mut out = NdjsonOut::create(&arg(args, "--out").unwrap());
     for (i, r) in results.into_inner().unwrap().into_iter().enumerate() {
+        // h: identity of the input (entry point + bytes + dictionary), for counting distinct inputs
+        let h = fnv(format!("{}|{}|{}", recs[i]["ep"], recs[i]["hex"], recs[i]["dict"]).as_bytes());
         match r {
-            Some(v) => out.put(&v),
-            None => out.put(&json!({"id": recs[i]["id"], "ran": false, "kind": "notrun"})),
+            Some(mut v) => {
+                v["h"] = json!(h);
+                out.put(&v)
+            }
+            None => out.put(&json!({"id": recs[i]["id"], "ran": false, "kind": "notrun", "h": h})),
         }
     }
     out.finish();
@@ -808,7 +865,7 @@ fn seeds(args: &[String]) {
     }
     // cross-reference streams
     for i in 0..n {
-        let w: [usize; 3] = *rng.pick(&[[1, 2, 1], [1, 4, 2], [1, 3, 0], [0, 2, 2], [2, 8, 2], [1, 1, 1]]);
+        let w: [usize; 3] = *rng.pick(&[[1, 2, 1], [1, 4, 2], [1, 3, 0], [0, 2, 2], [2, 8, 2], [1, 1, 1], [0, 2, 0], [0, 1, 0]]);
         let count = 2 + rng.below(5);
         let start = if i % 2 == 0 { 0 } else { 3 };
         let mut rows = vec![];
@@ -908,8 +965,12 @@ fn bulk(args: &[String]) {
             }
         }
         let mc: Vec<String> = muts.iter().map(|m| m["k"].as_str().unwrap().to_string()).collect();
-        out.put(&json!({"id": first_id + i, "ep": if i % 5 == 4 { "incload" } else { "load" }, "hex": hex_of(&b), "src": format!("bulk:{tag}"),
-                        "muts": muts, "mclass": mc, "pred": [], "len": b.len()}));
+        // limits as in checks/c04.py `limits`
+        let n = b.len() as u64;
+        let tmo = ((3000 + n / 50 + 999) / 1000) * 1000;
+        out.put(&json!({"id": first_id + i, "ep": if i % 5 == 4 { "incload" } else { "load" }, "hex": hex_of(&b), "dict": [], "src": format!("bulk:{tag}"),
+                        "muts": muts, "mclass": mc, "len": b.len(), "tmo_ms": tmo, "req_limit": (64u64 << 20) + 4096 * n.min(400000),
+                        "live_limit": (512u64 << 20) + 4096 * n}));
     }
     out.finish();
 }
